@@ -5,6 +5,8 @@
    decoding into the scratch buffer until the target offset, decoding into the caller's buffer at
    position decompressedOffset - offset, the per-frame XXH64 (low 32 bits) check when the frame completes,
    the move to the next frame through offsetToFrameIndex (and the "frame shorter than its table entry" error),
+   the cap of the decoder's output room at the frame end the table gives (fix 943db3b: a frame cannot hand out more
+   than its entry announces; a surplus ends in the no-progress or the checksum error),
    the no-output-progress counter, the length clamp at the end of the stream (with its U64 wrap).
 
    What is abstract: libzstd's streaming decoder and the input side (zs->in, src.read of the size hints).
@@ -79,8 +81,12 @@ Section Reader.
         match orc with
         | [] => RFuel dst st
         | o :: orc' =>
+            (* fix 943db3b: frameEnd = entries[targetFrame + 1].dOffset caps what one frame may hand out *)
+            if negb (in_range t (w32 (target + 1))) then RTrap 55 else
+            let frameEnd := e_d (ent t (w32 (target + 1))) in
             let skipping := r_doff st <? offset in
-            let size := if skipping then N.min BUFF (sub64 offset (r_doff st)) else len in
+            let size := if skipping then N.min BUFF (sub64 (N.min offset frameEnd) (r_doff st))
+                        else N.min len (sub64 frameEnd offset) in
             let pos := if skipping then 0 else sub64 (r_doff st) offset in
             if size <? pos then RTrap 52 else
             let st0 := mkR (r_cur st) (r_doff st) (d_frame st) (d_prod st) (d_fin st) (r_acc st)
